@@ -96,6 +96,7 @@ KIND_FLAGS = {
     'plain': ['-O1', '-g'],
     'asan': ['-O1', '-g', '-fsanitize=address,undefined', '-fno-omit-frame-pointer', '-fno-sanitize-recover=undefined', '-D_GLIBCXX_ASSERTIONS', '-D_GLIBCXX_SANITIZE_VECTOR'],
     'tsan': ['-O1', '-g', '-fsanitize=thread'],
+    'lset': ['-O1', '-g', '-fsanitize=thread'],      # ThreadSanitizer instrumentation, but linked against engine/vomp/lset.cpp instead of libtsan
     'init0': ['-O1', '-g', '-ftrivial-auto-var-init=zero'],
     'initP': ['-O1', '-g', '-ftrivial-auto-var-init=pattern'],
 }
@@ -103,6 +104,7 @@ KIND_LINK = {
     'plain': [],
     'asan': ['-fsanitize=address,undefined'],
     'tsan': ['-fsanitize=thread'],
+    'lset': ['-ldl'],
     'init0': [],
     'initP': [],
 }
@@ -174,7 +176,7 @@ def engine_objects(variant):
         base += ['-fsanitize=address', '-fno-omit-frame-pointer']
     if kind == 'tsan':
         base += ['-DVOMP_TSAN']
-    for s in ('vomp/vomp.cpp', 'hooks_default.cpp'):
+    for s in ('vomp/vomp.cpp', 'hooks_default.cpp') + (('vomp/lset.cpp',) if kind == 'lset' else ()):
         p = os.path.join(VERIF, 'engine', s)
         key = sha(' '.join(base), eh, s, read(p), CXX)
         obj = os.path.join(objdir, '%s-%s.o' % (os.path.basename(s)[:-4], key))
